@@ -180,19 +180,21 @@ class GSym(LSym):
                 cand = vals[cand_i]
                 if all(subst_arm(cand, d).eq(subst_arm(v, d)) for (d, _), v in zip(per, vals)):
                     return (self.shared_obj(("obj", okey), lambda: cand), k, size)
-            if not isinstance(base[0], G): raise Unsupported("merge of group elements over a non-group base cell")
-            acc = base[0]
-            for (d, _), v in zip(per, vals):
-                b = self.boolvar(Cond("cmp", d[0], d[1], ZERO))
-                acc = acc + (v - base[0]).scale(b)
+            # the arms are exhaustive (every feasible outcome of the comparison is an arm):  merged = sum_arm [arm] * value_arm .
+            # (not base + sum [arm]*(value_arm - base): that multiplies the old content by (1 - sum [writers]) and makes dead temporaries,
+            #  which are merged again in every iteration, grow exponentially)
+            acc = G()
+            for b, v in self.arm_groups(per, vals, lambda x, y: x is y or x.eq(y)): acc = acc + v.scale(b)
             acc = self.gnorm(acc)
+            import os
+            if os.environ.get("VP_DEBUG_MERGE"):
+                sz = sum(len(pp.t) for pp in acc.c.values())
+                if sz > 200: print("MERGE size", sz, "deg", max((pp.degree() for pp in acc.c.values()), default=0), "arms", [(d[0], sum(len(pp.t) for pp in v.c.values())) for (d, _), v in zip(per, vals)], "base", sum(len(pp.t) for pp in base[0].c.values()) if isinstance(base[0], G) else None, flush=True)
             self.general_merges = getattr(self, "general_merges", 0) + 1
             return (self.shared_obj(("obj", okey), lambda: acc), k, size)
         if all(isinstance(v, Poly) for v in vals) and isinstance(base[0], Poly) and size <= 8:
-            acc = base[0]
-            for (d, _), v in zip(per, vals):
-                b = self.boolvar(Cond("cmp", d[0], d[1], ZERO))
-                acc = acc + (v - base[0]) * b
+            acc = ZERO
+            for b, v in self.arm_groups(per, vals, lambda x, y: x is y or x.t == y.t): acc = acc + v * b
             return (self.shared_obj(("obj", okey), lambda: acc), k, size)
         raise Unsupported("cannot merge cell values %r" % ([type(v).__name__ for v in vals],))
     def fold_indicators(self, p):
@@ -226,6 +228,22 @@ class GSym(LSym):
             else:
                 for v, (c, m) in vals.items(): rest[m] = rest.get(m, 0) + c
         return Poly(rest), used
+    def arm_groups(self, per, vals, same):
+        """arms that leave the same value are grouped under ONE indicator for the disjunction of their conditions ({lt,eq} -> le, ...):
+        a value kept by several arms (typically the unwritten old content) is then multiplied by a single variable and does not grow"""
+        groups = []
+        for (d, _), v in zip(per, vals):
+            for g in groups:
+                if same(g[1], v): g[0].append(d); break
+            else: groups.append(([d], v))
+        out = []
+        for ds, v in groups:
+            kinds = frozenset(d[0] for d in ds); dd = ds[0][1]
+            if len(ds) == len(per): out.append((ONE, v)); continue
+            kind = {frozenset(["lt"]): "lt", frozenset(["eq"]): "eq", frozenset(["gt"]): "gt", frozenset(["lt", "eq"]): "le",
+                    frozenset(["eq", "gt"]): "ge", frozenset(["lt", "gt"]): "ne"}[kinds]
+            out.append((self.boolvar(Cond("cmp", kind, dd, ZERO)), v))
+        return out
     def shared_obj(self, key, make):
         """all bytes of one merged object must share the SAME python object (loads reassemble objects by identity);
         the cache lives for one fork_merge and keeps the keyed objects alive (no id reuse)"""
@@ -288,19 +306,18 @@ class GSym(LSym):
             raise Unsupported("abstract signed digit used as an unsigned integer")
         return super().P(v)
     # ------------------------------------------------------------------ abstract objects in memory
-    def global_region(self, gname):
-        name = "global:" + gname
-        fresh = name not in self.regions
-        p = super().global_region(gname)
-        if fresh and not self.__dict__.get("_in_static"):
-            sp = self.__dict__.get("_static_pts")
-            if sp is None:
-                self._in_static = True
-                try: sp = self._static_pts = self.static_regions(("vp_c_basepoint", "vp_c_ristretto_basepoint"))
-                finally: self._in_static = False
-                for rn in sp:      # the basepoint constant is the formal base point "B" wherever it is copied to (value: C12)
-                    self.put(Ptr(rn, 0), G.base("B"), 4 * self.fs)
-        return p
+    def concrete_image(self, p, n, raw=False):
+        R = self.regions.get(p.r)
+        if R is None: return None
+        out = bytearray()
+        for k in range(n):
+            e = dict.get(R.b, p.o + k)
+            if e is None: return None
+            v = e[0]
+            if isinstance(v, G) and raw: return None
+            if not isinstance(v, Poly) or not v.is_const(): return None
+            out.append((v.cval() >> (8 * e[1])) & 255)
+        return bytes(out)
     def static_regions(self, hooks):
         out = {}
         for h in hooks:
@@ -375,10 +392,20 @@ class GSym(LSym):
         if not isinstance(p, Ptr): raise Unsupported("point operand is not a pointer")
         e = self.regions[p.r].b.get(p.o)
         if e is not None and isinstance(e[0], G) and e[1] == 0: return e[0]
-        if p.r.startswith("global:") and p.o == 0:
-            sp = self.__dict__.get("_static_pts")
-            if sp is None: sp = self._static_pts = self.static_regions(("vp_c_basepoint", "vp_c_ristretto_basepoint"))
-            if p.r in sp: self.count("static_basepoint"); return G.base("B")      # ED25519_BASEPOINT_POINT (value: C12)
+        img = self.concrete_image(p, 4 * self.fs)
+        if img is not None:
+            # a by-value copy of the basepoint constant (`pub const`: every use site has its own anonymous copy): recognised by its
+            # 160-byte image, which is the one the C12 accessor returns (value checked by C12)
+            im = self.__dict__.get("_bp_images")
+            if im is None:
+                im = self._bp_images = {}
+                self._in_static = True
+                try:
+                    for rn in self.static_regions(("vp_c_basepoint", "vp_c_ristretto_basepoint")):
+                        bi = self.concrete_image(Ptr(rn, 0), 4 * self.fs, raw=True)
+                        if bi is not None: im[bi] = G.base("B")
+                finally: self._in_static = False
+            if img in im: self.count("basepoint_constant_copy"); return im[img]
         raise Unsupported("point operand at %r is not an abstract group element" % (p,))
     def put(self, p, g, size):
         if isinstance(p, SymPtr):
@@ -412,6 +439,14 @@ class GSym(LSym):
     # ------------------------------------------------------------------ recodings (contracts: Kani harnesses on the real code)
     def radix16(self, a):
         self.count("as_radix_16")
+        cs = self.concrete_scalar(a[1])
+        if cs is not None:
+            out = [0] * 64
+            for i in range(32): out[2 * i] = (cs >> (8 * i)) & 15; out[2 * i + 1] = (cs >> (8 * i + 4)) & 15
+            for i in range(63):
+                carry = (out[i] + 8) >> 4; out[i] -= carry << 4; out[i + 1] += carry
+            for i in range(64): self.store(Ptr(a[0].r, a[0].o + i), Poly.const(out[i] & 255), 1)
+            return
         tag = self.scalar_tag(a[1])
         d = self.digits.get((tag, "r16"))
         if d is None:
